@@ -77,7 +77,7 @@ def E1(inp, N, n=2, ro=False):
                vars=dict(role=p.role, granted=granted, term=p.term, mterm=mterm))
 
 
-@obligation('E3', props=('C03', 'C05', 'C18'), quick=_N_QUICK + [dict(N=1), dict(N=3, ro=True)],
+@obligation('E3', props=('C03', 'C05', 'C18', 'C01'), quick=_N_QUICK + [dict(N=1), dict(N=3, ro=True)],
             thorough=_N_THOROUGH + [dict(N=1), dict(N=3, ro=True)], stubs=_STUBS,
             bounds='voters N<=5, n<=3, terms 0..4, role in {F,C}, any deadline / clock / connectivity')
 def E3(inp, N, n=2, ro=False):
@@ -111,7 +111,7 @@ def E3(inp, N, n=2, ro=False):
     return Res(cl, nontrivial=started, obs=obs)
 
 
-@obligation('E4', props=('C03', 'C18'), quick=_N_QUICK + [dict(N=4)],
+@obligation('E4', props=('C03', 'C18', 'C04', 'C01'), quick=_N_QUICK + [dict(N=4)],
             thorough=_N_THOROUGH, stubs=_STUBS,
             bounds='voters N<=5 (both parities), n<=3, terms 0..5, any role, votes 1..N, any reply term')
 def E4(inp, N, n=2):
